@@ -13,6 +13,8 @@ import (
 type ev struct {
 	p *core.Prog
 	r *core.Roles
+
+	openErrFuncs map[*ssa.Function]int
 }
 
 func newEv(c *core.Ctx) (*ev, bool) {
@@ -23,7 +25,7 @@ func newEv(c *core.Ctx) (*ev, bool) {
 		}
 		return nil, false
 	}
-	return &ev{c.P, r}, true
+	return &ev{p: c.P, r: r}, true
 }
 
 func (e *ev) isField(v ssa.Value, f *types.Var) bool {
